@@ -26,7 +26,7 @@ func TestMain(m *testing.M) { harness.Main(m, "C19") }
 
 type StopSpec struct {
 	Offset ops.F32   `json:"o"`
-	Model  string    `json:"m"` // RGBA NRGBA RGBA64 Gray Alpha16 CMYK
+	Model  string    `json:"m"` // RGBA NRGBA RGBA64 Gray Alpha16 CMYK Alpha Gray16 NRGBA64 YCbCr Custom
 	V      [4]uint16 `json:"v"`
 }
 
@@ -41,10 +41,27 @@ func (s StopSpec) color() color.Color {
 		return color.Gray{uint8(v[0])}
 	case "Alpha16":
 		return color.Alpha16{v[0]}
+	case "Alpha":
+		return color.Alpha{uint8(v[0])}
+	case "Gray16":
+		return color.Gray16{v[0]}
+	case "NRGBA64":
+		return color.NRGBA64{v[0], v[1], v[2], v[3]}
+	case "YCbCr":
+		return color.YCbCr{uint8(v[0]), uint8(v[1]), uint8(v[2])}
+	case "Custom":
+		return customColor(v)
 	case "CMYK":
 		return color.CMYK{uint8(v[0]), uint8(v[1]), uint8(v[2]), uint8(v[3])}
 	}
 	return color.RGBA{uint8(v[0]), uint8(v[1]), uint8(v[2]), uint8(v[3])}
+}
+
+// customColor: a caller's own color.Color implementation (premultiplied 16-bit channels).
+type customColor [4]uint16
+
+func (c customColor) RGBA() (r, g, b, a uint32) {
+	return uint32(c[0]), uint32(c[1]), uint32(c[2]), uint32(c[3])
 }
 
 func (s StopSpec) rgba8() color.RGBA {
@@ -488,7 +505,7 @@ func genStops(t *rapid.T, n int, valid bool) []StopSpec {
 		} else {
 			o = float32(rapid.IntRange(-8, 130).Draw(t, "o")) / 120
 		}
-		model := rapid.SampledFrom([]string{"RGBA", "RGBA", "NRGBA", "RGBA64", "Gray", "Alpha16", "CMYK"}).Draw(t, "model")
+		model := rapid.SampledFrom([]string{"RGBA", "RGBA", "NRGBA", "RGBA64", "Gray", "Alpha16", "CMYK", "Alpha", "Gray16", "NRGBA64", "YCbCr", "Custom"}).Draw(t, "model")
 		var v [4]uint16
 		switch model {
 		case "RGBA":
@@ -497,8 +514,15 @@ func genStops(t *rapid.T, n int, valid bool) []StopSpec {
 		case "RGBA64":
 			a := rapid.Uint16().Draw(t, "a")
 			v = [4]uint16{uint16(rapid.IntRange(0, int(a)).Draw(t, "r")), uint16(rapid.IntRange(0, int(a)).Draw(t, "g")), uint16(rapid.IntRange(0, int(a)).Draw(t, "b")), a}
-		case "Alpha16":
+		case "Alpha16", "Gray16":
 			v[0] = rapid.Uint16().Draw(t, "a")
+		case "NRGBA64":
+			for j := range v {
+				v[j] = rapid.Uint16().Draw(t, "c16")
+			}
+		case "Custom":
+			a := rapid.Uint16().Draw(t, "ca")
+			v = [4]uint16{uint16(rapid.IntRange(0, int(a)).Draw(t, "cr")), uint16(rapid.IntRange(0, int(a)).Draw(t, "cg")), uint16(rapid.IntRange(0, int(a)).Draw(t, "cb")), a}
 		default:
 			for j := range v {
 				v[j] = uint16(rapid.IntRange(0, 255).Draw(t, "c8"))
